@@ -84,6 +84,9 @@ def classify_ref(op, desc, shapes, sizes):
         return "illformed:brackets"
     if outs is None:
         return "unknown"
+    rule = rule_violation(op, ins, outs)
+    if rule:
+        return "illformed:" + rule
     if len(ins) != len(shapes):
         return "illformed:tensor-count"
     # a size keyword for an axis that does not occur in the description is ignored by einx on purpose (solve.py: "Remove unused constraints")
@@ -98,6 +101,21 @@ def classify_ref(op, desc, shapes, sizes):
     if not sols:
         return "illformed:unsat"
     return "maybe"
+
+
+def _has_bracket(items):
+    return any(isinstance(n, R.Br) for n in R.walk(items))
+
+
+def rule_violation(op, ins, outs):
+    """documented bracket rules that need no solving: brackets are not allowed in element-wise operations and in id, nor in the output of a
+    reduction / dot / get_at"""
+    fam = gen.OP_FAMILY.get(op)
+    if fam in ("elementwise", "id") and (_has_bracket(ins) or _has_bracket(outs)):
+        return "rule: brackets in " + fam
+    if fam in ("reduce", "dot", "get_at") and _has_bracket(outs):
+        return "rule: brackets in the output of " + fam
+    return None
 
 
 def judge(op, desc, arrays, kw, ref, hist, bad, origin):
